@@ -86,6 +86,13 @@ func (handler *DecryptionKeyShareHandler) ValidateMessage(ctx context.Context, m
 }
 
 func checkKeyShares(keyShare *p2pmsg.DecryptionKeyShares, pureDKGResult *puredkg.Result) (pubsub.ValidationResult, error) {
+	if keyShare.KeyperIndex >= uint64(len(pureDKGResult.PublicKeyShares)) {
+		return pubsub.ValidationReject, errors.Errorf(
+			"keyper index %d out of range (DKG result has %d public key shares)",
+			keyShare.KeyperIndex,
+			len(pureDKGResult.PublicKeyShares),
+		)
+	}
 	shares := keyShare.GetShares()
 	for i, share := range shares {
 		epochSecretKeyShare, err := share.GetEpochSecretKeyShare()
